@@ -1,7 +1,176 @@
-(** C16 — pinned statements. Nothing but statements, [exact], and assumption audits. *)
-From TU Require Import Base C16_Model C16_Proofs.
+(** C16 — pinned statements. Nothing but statements, [exact], and assumption audits.
 
-(** decode (encode l) = l *)
+    Vocabulary (C16_Model.v / C16_Proofs.v):
+    [lens] = byte lengths of the characters (clusters) of the text; [Pos lens]: all positive;
+    [cs_new lens] = the CharString (run-length encoded lengths, len, str.len());
+    [pre lens n] = sum of the first [n] lengths; [windows kind max ctx lens] = the model of
+    windows::windows / char / byte with [kclass kind] = 0 characters, 1 bytes, 2 full;
+    results: [Ok ws], [Err 1 []] (max <= 2*ctx), [Err 2 [pos; bytes; window_length]] (character wider
+    than the window), [Panic _] (the code would panic), [Fuel] (the loop would not stop);
+    [Tile fs fe s e ws]: the ranges [fs w, fe w) are non-empty, consecutive, start at [s], end at [e]. *)
+From TU Require Import Base C16_Model C16_Proofs C16_Top.
+Open Scope N_scope.
+
+(** run_length_decode (run_length_encode l) = l *)
 Theorem rle_roundtrip : forall l : list N, unrle (rle l) = l.
 Proof. exact rle_roundtrip_l. Qed.
 Print Assumptions rle_roundtrip.
+
+(** [pre] is the prefix sum; the byte length used by the model is the UTF-8 length of Base.v *)
+Theorem pre_is_prefix_sum : forall l n, pre l n = sumN (firstn (N.to_nat n) l).
+Proof. exact pre_firstn. Qed.
+Print Assumptions pre_is_prefix_sum.
+
+Theorem utf8_len_is_utf8 : forall c, utf8_len c = lenN (utf8 c).
+Proof. exact utf8_len_utf8. Qed.
+Print Assumptions utf8_len_is_utf8.
+
+(** byte_start_end walks the run-length encoding to: start = sum of the byte lengths of the first n
+    characters, end = start + length of character n; beyond the end it is the "should not happen" panic *)
+Theorem byte_start_end_spec : forall lens n,
+  (n < lenN lens -> bse (cs_new lens) n = Ok (pre lens n, pre lens n + nth (N.to_nat n) lens 0))
+  /\ (lenN lens <= n -> bse (cs_new lens) n = Panic 1).
+Proof. exact byte_start_end_spec_l. Qed.
+Print Assumptions byte_start_end_spec.
+
+Theorem char_byte_len_spec : forall lens n, n < lenN lens ->
+  cbl (cs_new lens) n = Ok (nth (N.to_nat n) lens 0).
+Proof. exact char_byte_len_spec_l. Qed.
+Print Assumptions char_byte_len_spec.
+
+(** char_range_to_byte_range and sub as byte ranges *)
+Theorem char_range_spec : forall lens a b, a < b -> b <= lenN lens ->
+  cr2br (cs_new lens) a b = Ok (pre lens a, pre lens b).
+Proof. exact cr2br_new. Qed.
+Print Assumptions char_range_spec.
+
+Theorem sub_spec : forall lens a b, a <= b ->
+  sub (cs_new lens) a b =
+  if N.min a (lenN lens) =? N.min b (lenN lens) then Ok (0, 0)
+  else Ok (pre lens (N.min a (lenN lens)),
+           pre lens (N.min b (lenN lens)) - pre lens (N.min a (lenN lens))).
+Proof. exact sub_new. Qed.
+Print Assumptions sub_spec.
+
+(** The windows partition the text: in characters and in bytes the first starts at 0, each starts
+    where the previous ended, none is empty, the last ends at the length; the byte ranges
+    concatenate to the text (any byte string of the right length). *)
+Theorem windows_tile : forall kind max ctx lens wins, Pos lens -> lens <> [] ->
+  windows kind max ctx lens = Ok wins ->
+  Tile w_ws w_we 0 (lenN lens) wins
+  /\ Tile w_bws w_bwe 0 (sumN lens) wins
+  /\ (forall text : list byte, lenN text = sumN lens ->
+        concat (map (fun w => bslice text (w_bws w) (w_bwe w)) wins) = text).
+Proof. exact windows_tile_l. Qed.
+Print Assumptions windows_tile.
+
+(** what [Tile] says, spelled out *)
+Theorem tile_explicit : forall (fs fe : window -> N) d wins s e, Tile fs fe s e wins -> s <> e ->
+  wins <> [] /\ fs (hd d wins) = s /\ fe (last wins d) = e
+  /\ (forall i, (S i < length wins)%nat -> fe (nth i wins d) = fs (nth (S i) wins d))
+  /\ Forall (fun w => fs w < fe w) wins.
+Proof. exact Tile_explicit. Qed.
+Print Assumptions tile_explicit.
+
+(** each context contains its window and lies inside the text *)
+Theorem ctx_contains : forall kind max ctx lens wins, Pos lens -> lens <> [] ->
+  windows kind max ctx lens = Ok wins ->
+  Forall (fun w => w_cs w <= w_ws w /\ w_we w <= w_ce w /\ w_ce w <= lenN lens
+                /\ w_bcs w <= w_bws w /\ w_bwe w <= w_bce w /\ w_bce w <= sumN lens) wins.
+Proof. exact ctx_contains_l. Qed.
+Print Assumptions ctx_contains.
+
+(** no context exceeds the maximum: in characters for character windows, in bytes for byte windows *)
+Theorem ctx_bound : forall kind max ctx lens wins, Pos lens -> lens <> [] ->
+  windows kind max ctx lens = Ok wins ->
+  (kclass kind = 0 -> Forall (fun w => w_ce w - w_cs w <= max) wins)
+  /\ (kclass kind = 1 -> Forall (fun w => w_bce w - w_bcs w <= max) wins).
+Proof. exact ctx_bound_l. Qed.
+Print Assumptions ctx_bound.
+
+(** the reported string is exactly the byte range of the context *)
+Theorem ctx_str : forall kind max ctx lens wins, Pos lens -> lens <> [] ->
+  windows kind max ctx lens = Ok wins ->
+  Forall (fun w => w_soff w = w_bcs w /\ w_soff w + w_slen w = w_bce w) wins.
+Proof. exact ctx_str_l. Qed.
+Print Assumptions ctx_str.
+
+(** byte and character boundaries denote the same positions *)
+Theorem byte_char_agree : forall kind max ctx lens wins, Pos lens -> lens <> [] ->
+  windows kind max ctx lens = Ok wins ->
+  Forall (fun w => w_bcs w = pre lens (w_cs w) /\ w_bws w = pre lens (w_ws w)
+                /\ w_bwe w = pre lens (w_we w) /\ w_bce w = pre lens (w_ce w)) wins.
+Proof. exact byte_char_agree_l. Qed.
+Print Assumptions byte_char_agree.
+
+(** an impossible configuration is the configuration error (also for the direct calls on any text) *)
+Theorem bad_config_err : forall kind max ctx lens, Pos lens -> lens <> [] ->
+  kclass kind <> 2 -> max <= 2 * ctx -> windows kind max ctx lens = Err 1 [].
+Proof. exact bad_config_err_l. Qed.
+Print Assumptions bad_config_err.
+
+Theorem bad_config_err_direct : forall lens max ctx, max <= 2 * ctx ->
+  char_windows lens max ctx = Err 1 [] /\ byte_windows lens max ctx = Err 1 [].
+Proof. exact bad_config_err_direct_l. Qed.
+Print Assumptions bad_config_err_direct.
+
+(** byte windows: a character wider than max - ctx fits in no window: the error *)
+Theorem wide_char_err : forall kind max ctx lens b, Pos lens -> lens <> [] -> kclass kind = 1 ->
+  2 * ctx < max -> In b lens -> max - ctx < b ->
+  exists info, windows kind max ctx lens = Err 2 info.
+Proof. exact windows_wide. Qed.
+Print Assumptions wide_char_err.
+
+(** ... and the error is produced only for a character wider than its window, with the numbers the
+    message reports *)
+Theorem wide_err_sound : forall kind max ctx lens c info, Pos lens -> lens <> [] ->
+  windows kind max ctx lens = Err c info -> c <> 1 ->
+  kclass kind = 1 /\ 2 * ctx < max /\ c = 2 /\
+  exists p, p < lenN lens
+    /\ info = [p; nth (N.to_nat p) lens 0; max - (1 + b2n (0 <? p)) * ctx]
+    /\ max - (1 + b2n (0 <? p)) * ctx < nth (N.to_nat p) lens 0.
+Proof. exact wide_err_sound_l. Qed.
+Print Assumptions wide_err_sound.
+
+(** a valid configuration in which every character fits in every window succeeds *)
+Theorem windows_fit_ok : forall kind max ctx lens, Pos lens -> lens <> [] ->
+  (kclass kind <> 2 -> 2 * ctx < max) ->
+  (kclass kind = 1 -> Forall (fun b => b <= max - 2 * ctx) lens) ->
+  exists wins, windows kind max ctx lens = Ok wins.
+Proof. exact windows_fit_ok_l. Qed.
+Print Assumptions windows_fit_ok.
+
+(** totality: for every text, configuration and kind the result is a window list or an error value:
+    the fuel (= number of characters) is never exhausted and no panic site is reached *)
+Theorem windows_total : forall kind max ctx lens, Pos lens ->
+  (exists wins, windows kind max ctx lens = Ok wins)
+  \/ (exists c info, windows kind max ctx lens = Err c info).
+Proof. exact windows_total_l. Qed.
+Print Assumptions windows_total.
+
+(** the executable statement used on the implementation's outputs means the clauses above ... *)
+Theorem wins_okb_sound : forall lens kc max wins, wins_okb lens kc max wins = true ->
+  Tile w_ws w_we 0 (lenN lens) wins /\ Tile w_bws w_bwe 0 (sumN lens) wins
+  /\ Forall (win_ok lens kc max) wins.
+Proof. exact wins_okb_sound_l. Qed.
+Print Assumptions wins_okb_sound.
+
+(** ... and holds of the model's own output for every well-formed input (no empty cluster) *)
+Theorem check_run : forall v, wf_C16 v = true -> check_C16 v (run_C16 v) = true.
+Proof. exact check_run_l. Qed.
+Print Assumptions check_run.
+
+(** Non-vacuity: concrete inputs meeting the hypotheses. "aä中😀abä" (1,2,3,4,1,1,2 bytes), byte windows
+    max 7 ctx 1: three windows; max 5: the 4-byte character does not fit behind the first window. *)
+Example pos_witness : Pos [1;2;3;4;1;1;2] /\ [1;2;3;4;1;1;2] <> [].
+Proof. split; [repeat constructor | discriminate]. Qed.
+Example ok_witness : exists wins, windows 1 7 1 [1;2;3;4;1;1;2] = Ok wins /\ length wins = 3%nat.
+Proof. eexists. split; [vm_compute; reflexivity | reflexivity]. Qed.
+Example char_witness : exists wins, windows 0 5 1 [1;2;3;4;1;1;2] = Ok wins /\ length wins = 2%nat.
+Proof. eexists. split; [vm_compute; reflexivity | reflexivity]. Qed.
+Example wide_witness : windows 1 5 1 [1;2;3;4;1;1;2] = Err 2 [3; 4; 3].
+Proof. vm_compute. reflexivity. Qed.
+Example config_witness : windows 1 6 3 [1;2;3;4;1;1;2] = Err 1 [].
+Proof. vm_compute. reflexivity. Qed.
+Example wf_witness : wf_C16 (L [I 1; I 7; I 1; L [L [I 97]; L [I 228]; L [I 101; I 769]]; I 1; L []])%Z = true.
+Proof. vm_compute. reflexivity. Qed.
